@@ -1968,6 +1968,9 @@ def c19(W, replay=None):
         for s_ in [x for x in scen if x["id"].startswith(("c19/refs1/", "c19/refs2/", "c19/all5/"))][:500]:
             extra.append(dict(s_, id=s_["id"].replace("c19/", "c19/faultyGets/"), faultyGets=True))
             extra.append(dict(s_, id=s_["id"].replace("c19/", "c19/b64values/"), events=[dict(e, v=b64.get(e.get("v"), e.get("v"))) for e in s_["events"]]))
+            # values with blanks around and inside them (Secret.Data is raw bytes: the value is what is there, byte for byte)
+            raw = {"v1": " lead and trail \n", "v2": "tab\tinside, newline at the end\n"}
+            extra.append(dict(s_, id=s_["id"].replace("c19/", "c19/rawvalues/"), events=[dict(e, v=raw.get(e.get("v"), e.get("v"))) for e in s_["events"]]))
         scen += extra
         # start-up: cross-namespace references are refused, a reference naming the controller's own namespace is not
         ev = [{"op": "set", "name": "n1", "v": "v1"}, {"op": "reconcile", "name": "n1", "v": ""}]
